@@ -88,7 +88,7 @@ fn fields_equal(h: &Header, s: &SHeader) -> Result<(), String> {
 
 /// valid header bytes: decode -> fields equal -> encode reproduces the bytes, exactly 127 of them
 fn check_valid_bytes(bytes: &[u8; 127], both: bool) -> Result<(), Fail> {
-    let s = SHeader::decode(bytes).map_err(|e| Fail::new("C09/harness", e))?;
+    let s = SHeader::decode(bytes).map_err(|e| Fail::new("C09/INFRA/harness-self-check", e))?;
     for a in [false, true] {
         if a && !both {
             continue;
